@@ -15,6 +15,7 @@
    No axioms. *)
 From Coq Require Import ZArith List.
 From GV Require Import Marshal.Model Marshal.ModelRefactor Marshal.Proofs Marshal.RefactorProofs Marshal.BudgetProofs Marshal.ModelAlloc Marshal.AllocProofs.
+From GV Require Import Marshal.SuffixProofs Marshal.ChunkProofs Marshal.ChunkReader.
 Import ListNotations.
 Open Scope Z_scope.
 
@@ -229,3 +230,73 @@ Theorem C13_dump_deterministic_injective :
   (dump k1 = dump k2 <-> k1' = k2').
 Proof. exact dump_deterministic_injective. Qed.
 Print Assumptions C13_dump_deterministic_injective.
+
+(* ---- Round 8 ---- *)
+
+(* ANY byte string, ANY budget, ANY allocation limit: when UnmarshalConst returns a value, the
+   input was the prefix 06 00 04, then what was consumed, then exactly the unread input it
+   hands back: the reader never goes beyond (or skips within) its input. *)
+Theorem C13_unmarshal_consumes_prefix :
+  forall lim budget inp k rest b', unmarshal lim budget inp = UOk k rest b' ->
+  exists consumed, inp = marshalPrefix ++ consumed ++ rest.
+Proof. exact unmarshal_consumes_prefix. Qed.
+Print Assumptions C13_unmarshal_consumes_prefix.
+
+(* totality on ARBITRARY bytes and containment in the input, in one statement *)
+Theorem C13_unmarshal_total_within_input :
+  forall lim budget inp, 48 * zlen inp + 66048 <= lim <= maxAlloc ->
+  match unmarshal lim budget inp with
+  | UOk _ rest _ => exists consumed, inp = marshalPrefix ++ consumed ++ rest
+  | UErr _ _ | UBudget => True
+  | UPanic | UFatal _ | UOutOfFuel => False
+  end.
+Proof. exact unmarshal_total_within_input. Qed.
+Print Assumptions C13_unmarshal_total_within_input.
+
+(* readBytes: the eager path (make + io.ReadFull) and the chunked path (io.CopyN into a growing
+   buffer) give the same outcome — bytes, unread input, budget left, error — for EVERY length n
+   (negative and overflowing ones included), item size, input and budget, as soon as one
+   allocation can get the announced total (eager) and 2*|input|+512 bytes (chunked). *)
+Theorem C13_read_paths_agree :
+  forall lim unl n item inp b, n * item <= lim -> 2 * zlen inp + 512 <= lim <= maxAlloc ->
+  rd_bytes_eager lim unl n item inp b = rd_bytes_chunked lim unl n item inp b.
+Proof. exact rd_bytes_paths_agree. Qed.
+Print Assumptions C13_read_paths_agree.
+
+(* with NO size hypothesis at all: for every threshold T the outcome of readBytes is the
+   threshold-free "delivered data" function or an allocation stop; rd_bytes_T maxEagerRead is
+   the model's rd_bytes *)
+Theorem C13_read_any_threshold_data :
+  forall T lim unl n item inp b,
+  rd_bytes_T T lim unl n item inp b = rd_bytes_data unl n item inp b \/
+  alloc_stop (rd_bytes_T T lim unl n item inp b).
+Proof. exact rd_bytes_any_threshold_data. Qed.
+Print Assumptions C13_read_any_threshold_data.
+
+Theorem C13_read_threshold_is_model :
+  forall lim unl n item inp b,
+  rd_bytes_T maxEagerRead lim unl n item inp b = rd_bytes lim unl n item inp b.
+Proof. exact rd_bytes_T_model. Qed.
+Print Assumptions C13_read_threshold_is_model.
+
+(* INDEPENDENCE OF maxEagerRead for the whole of UnmarshalConst: ANY byte string, ANY budget,
+   EVERY threshold T that one allocation can get (T <= lim; negative T = everything chunked):
+   the reader with threshold T is the model's reader (value, unread input, budget, errors). *)
+Theorem C13_unmarshal_threshold_independent :
+  forall T lim budget inp, T <= lim -> 65536 <= lim -> 2 * zlen inp + 512 <= lim <= maxAlloc ->
+  unmarshal_T T lim budget inp = unmarshal lim budget inp.
+Proof. exact unmarshal_threshold_independent. Qed.
+Print Assumptions C13_unmarshal_threshold_independent.
+
+(* unmarshal_T at the source's threshold IS the model's unmarshal (no hypothesis) *)
+Theorem C13_unmarshal_T_is_model :
+  forall lim budget inp, unmarshal_T maxEagerRead lim budget inp = unmarshal lim budget inp.
+Proof. exact unmarshal_T_model. Qed.
+Print Assumptions C13_unmarshal_T_is_model.
+
+(* hypotheses satisfiable; threshold 0 sends every array through the chunked path *)
+Theorem C13_unmarshal_T_example :
+  unmarshal_T 0 1048576 0 (marshal ex_code) = UOk ex_code [] 0 /\
+  unmarshal_T maxEagerRead 1048576 0 (marshal ex_code) = UOk ex_code [] 0.
+Proof. exact unmarshal_T_example. Qed.
+Print Assumptions C13_unmarshal_T_example.
